@@ -1,11 +1,52 @@
 """Which units / harnesses decide which property (DESIGN §3)."""
 
+OPAQUE = "float model F-opaque: every arithmetic operation and comparison on the generic float type is an uninterpreted symbol (a proved postcondition holds for every interpretation, in particular IEEE-754 incl. NaN); the one axiom is f_eq(0,0)"
+PRINT_OK = "print functions are assumed to return Ok (an I/O error on the print target makes solve panic at its .unwrap()) and to write self.iterations in the first column (info_print.rs is write!/format! code outside both verifiers)"
+TRAITS = "generic solve loop: the contracts on the core traits are assumed for arbitrary implementations; for the default implementation they are PROVED for DefaultInfo (check_termination, post_process, save/reset_prev_iterate, save_scalars, get/set_status) and DefaultSettings::core, assumed for the numeric methods of DefaultVariables / KKT system / residuals / solution (they only need to return and keep vector lengths)"
+
 PROPS = {
     "C01": {
         "units": ["status"],
         "scope": "verdict layer: Solved only when the documented test holds on the reported figures",
-        "assumptions": ["float model F-opaque: every arithmetic operation and comparison is an uninterpreted symbol (sound for IEEE-754 incl. NaN)"],
+        "assumptions": [OPAQUE],
         "trusted_base": ["prelude/float_opaque.rs (hand written)"],
-        "not_covered": [],
+        "not_covered": ["Residuals::update (gemv/symv sums)", "cone membership of the final iterate", "that the loop reaches Solved at all (C06)"],
+    },
+    "C02": {
+        "units": ["status"],
+        "scope": "verdict layer: *Infeasible only when the documented certificate test holds",
+        "assumptions": [OPAQUE],
+        "trusted_base": ["prelude/float_opaque.rs (hand written)"],
+        "not_covered": ["z in K*, s in K of the certificate", "user-space certificate beyond the unscale contract"],
+    },
+    "C03": {
+        "units": ["status", "solve"],
+        "scope": "Almost* only from error/limit statuses under reduced tolerances; never inside the loop; status revisions only to Almost*",
+        "assumptions": [OPAQUE, TRAITS, PRINT_OK],
+        "trusted_base": ["prelude/float_opaque.rs", "prelude/vecmath_assumed.rs"],
+        "not_covered": ["numerical equality of obj_val with an independent recomputation (rounding)", "chordal case"],
+    },
+    "C04": {
+        "units": ["status", "solve"],
+        "scope": "solve terminates (given callee termination), exits with a terminal status, iterations <= max_iter, budget/time limit stop the loop; panic obligations (unwrap, unreachable!, copy_from_slice lengths) of the functions under contract",
+        "assumptions": [OPAQUE, TRAITS, PRINT_OK, "termination is relative: numeric callees are assumed to return"],
+        "trusted_base": ["prelude/float_opaque.rs", "prelude/vecmath_assumed.rs"],
+        "drops": ["timers (rule R7: timeit!/notimeit! wrappers removed)", "the `_print_banner(self.info.print_target(), ..)` statement of solve (&mut dyn Write)"],
+        "not_covered": ["absence of hangs inside numeric kernels", "wall-clock behaviour"],
+    },
+    "C07": {
+        "units": ["status", "solve"],
+        "scope": "narrow: the iteration budget is observed only by the MaxIterations test (verdict independent of max_iter while budget remains); MaxIterations reported only with iterations == max_iter",
+        "assumptions": [OPAQUE, TRAITS],
+        "trusted_base": ["prelude/float_opaque.rs", "prelude/vecmath_assumed.rs"],
+        "not_covered": ["s,z strictly inside K,K* (numeric)", "bit-reproducibility across runs (2-safety)"],
+    },
+    "C20": {
+        "units": ["solve"],
+        "scope": "narrow: verbose off => the solve loop adds nothing to the progress table; verbose on => iteration column starts at 0, never decreases, ends at info.iterations (ghost history of the print target)",
+        "assumptions": [OPAQUE, TRAITS, PRINT_OK],
+        "trusted_base": ["prelude/float_opaque.rs", "prelude/vecmath_assumed.rs"],
+        "drops": ["timers (rule R7)", "the `_print_banner(..)` statement of solve"],
+        "not_covered": ["byte equality across print targets", "header/footer contents", "print_configuration figures"],
     },
 }
